@@ -86,6 +86,19 @@ def run_scenario(scenario, seed, monitors=(), trace=False, settle=None, worker_h
                     return
                 node = alive[0]
             via = ex.get("via", "api")
+            if via == "raw-anon":
+                # a client that names nothing but the state machine and sets no message id: the engine picks the
+                # execution name; two such events with the same input are byte-identical messages
+                from lsfsim.peers import NativeChannel, Props
+                if not hasattr(res, "_rawch"):
+                    res._rawch = NativeChannel(sim, "raw-starter")
+                sfx = "-qq" if (scenario.get("config") or {}).get("queue_type") == "quorum" else ""
+                body = json.dumps({"data": ex["input"], "context": {"StateMachine": {"Id": res.sm_arns[ex["machine"]]}}})
+                sim.count("raw-start-event")
+                sim.broker.basic_publish(res._rawch.rec, "", "asl_workflow_events" + sfx, body.encode(),
+                                         Props(content_type="application/json", delivery_mode=2))
+                res.start_calls.append((ex, {"status": 200, "json": {}, "t0": sim.now, "step0": sim.steps, "raw": True}))
+                return
             if via in ("raw", "raw-noid"):
                 # the "low-level" way: a client publishes the start event straight to the shared event queue, naming the
                 # state machine (and here the execution, so that its ARN is known); "raw-noid" leaves the AMQP message
